@@ -20,7 +20,7 @@ Your task: make ONE small, realistic source change to libevent in {W} (the kind 
 
 Also write a small demonstration C program that FAILS (non-zero exit, abort, sanitizer report, or hang detected by alarm()) with your change and PASSES (exit 0) without it. Link it against the static libraries of your build, e.g.
       cc -g -I{W}/include -I{W}/_b/include demo.c {W}/_b/lib/libevent_extra.a {W}/_b/lib/libevent_core.a {W}/_b/lib/libevent_pthreads.a -lpthread -o demo
-(internal headers such as event-internal.h may be included from {W} if you need to observe internal state, but prefer the public API.) Verify both directions yourself: build with the change -> demo fails; `git stash` the change, rebuild -> demo passes; `git stash pop` to restore the change and rebuild.
+(internal headers such as event-internal.h may be included from {W} if you need to observe internal state, but prefer the public API.) Verify both directions yourself: build with the change -> demo fails; revert the change with `git diff > /tmp/seed/{pid}{suf}.my.diff && git apply -R /tmp/seed/{pid}{suf}.my.diff`, rebuild -> demo passes; `git apply /tmp/seed/{pid}{suf}.my.diff` to restore the change and rebuild. Do NOT use `git stash` (the stash is shared between worktrees of one repository and other people work in sibling worktrees).
 
 Deliverables, all under {W}/_seed/ (create the directory):
   - patch.diff : output of `git diff` for your source change only (no build dirs, no demo)
